@@ -32,6 +32,14 @@ def digest(x):
     return s
 
 
+def norm_reply(name, r):
+    """the order of alternative definitions inside one location() entry is C17's business, not C15's:
+    nested alternative lists are compared as sets here"""
+    if name == 'location' and isinstance(r, (list, tuple)):
+        return [sorted((canon(x) for x in e), key=lambda c: json.dumps(c, sort_keys=True)) if isinstance(e, (list, tuple)) else e for e in r]
+    return r
+
+
 def mask(msg):
     return re.sub(r'0x[0-9a-fA-F]+', '0x..', msg)
 
@@ -153,7 +161,11 @@ def make_request(cls, k, rng, projdir, corpus, big):
                            ('configure', [], {}, False), ('eval', [], {}, False), ('eval', ['return 1', 2], {}, False)])
     if cls == 'unser':
         e = rng.choice(['return object()', 'return {1, 2, %d}' % k, 'return 2**64', 'return lambda: %d' % k, 'return -2**63 - 1',
-                        'return [1, {"deep": [object]}]', 'import sys\nreturn sys', 'return 1j', 'return {(1, 2): frozenset()}'])
+                        'return [1, {"deep": [object]}]', 'import sys\nreturn sys', 'return 1j', 'return {(1, 2): frozenset()}',
+                        # serialisation failing with something that is not a msgpack exception
+                        'return "caf\\udce9 %d"' % k, 'x = []\nfor i in range(5000):\n    x = [x]\nreturn x',
+                        'return {"k": ["\\ud800"]}', 'class S(str):\n    def encode(self, *a):\n        raise RuntimeError("enc %d")\nreturn S("x")' % k,
+                        'return range(%d)' % k, 'return Exception("as a value")', 'return memoryview(b"x")'])
         return 'eval', [e], {}, False
     raise AssertionError(cls)
 
@@ -183,7 +195,7 @@ def main():
                 rem = {'kind': 'ok', 'val': '', 'msg': ''}
                 try:
                     r = env._call(name, *args, **kwargs)
-                    rem['val'] = digest(r)
+                    rem['val'] = digest(norm_reply(name, r))
                 except Exception as e:  # noqa
                     rem = {'kind': 'exc', 'val': '', 'msg': mask(str(e))}
                 # in-process
@@ -195,7 +207,7 @@ def main():
                     else:
                         try:
                             v = local.call(name, args, kwargs)
-                            loc = {'kind': 'ok', 'val': digest(v), 'msg': ''}
+                            loc = {'kind': 'ok', 'val': digest(norm_reply(name, v)), 'msg': ''}
                         except Exception as e:  # noqa
                             loc = {'kind': 'exc', 'val': '', 'msg': mask(str(e))}
                 alive = env.proc.poll() is None
